@@ -26,7 +26,7 @@ import (
 var Watchdog = func(entering bool) {}
 
 func (w *World) newCall(kind string, c *ContactState, sa *SA) *Call {
-	call := &Call{N: len(w.Calls) + 1, Kind: kind, Contact: c.Idx, At: w.Now, SA: sa, Opt: w.Sc.Opt, EnvJSON: w.EnvSpec.JSON()}
+	call := &Call{N: len(w.Calls) + 1, Kind: kind, Contact: c.Idx, At: w.Now, SA: sa, Opt: w.Sc.Opt, EnvJSON: w.EnvSpec.JSON(), ClockTick: w.Seams.Clock.Tick}
 	call.ReplicaBefore = cloneJ(c.Replica)
 	return call
 }
